@@ -24,11 +24,14 @@ type Opts struct {
 }
 
 type g struct {
-	r     *vc.Rand
-	o     Opts
-	s     *spec.Spec
-	names map[string]bool // user type names used
-	seq   int
+	r          *vc.Rand
+	o          Opts
+	s          *spec.Spec
+	names      map[string]bool // user type names used
+	seq        int
+	solo       []string                 // names of single-validation types (validation profile)
+	catchAll   map[string]*catchAllInfo // service -> first catch-all route
+	lastPrefix string
 }
 
 var words = []string{"alpha", "bravo", "charlie", "delta", "echo", "foxtrot", "golf", "hotel", "india", "juliet", "kilo", "lima",
@@ -247,6 +250,9 @@ func (x *g) genUserTypes() {
 			x.genObjectType("type")
 		}
 	}
+	if x.o.Profile == "validation" && x.chance(2, 3) {
+		x.genSoloValidationTypes()
+	}
 	nres := 0
 	switch x.o.Profile {
 	case "views":
@@ -259,6 +265,64 @@ func (x *g) genUserTypes() {
 	for i := 0; i < nres; i++ {
 		x.genResultType()
 	}
+	if x.o.Profile == "views" && x.chance(2, 3) {
+		x.genNestedViewTypes()
+	}
+}
+
+// genNestedViewTypes adds a leaf result type with three views and a parent result type that renders
+// SEVERAL attributes of that same leaf type (direct and in a collection) under different nested views
+// in each of its own views.
+func (x *g) genNestedViewTypes() {
+	leaf := &spec.UserType{Name: x.typeName("Leaf"), Kind: "result", Def: &spec.Type{Kind: spec.Object}}
+	leaf.Def.Attrs = []*spec.Attr{
+		{Name: "ident", Type: &spec.Type{Kind: spec.Int}},
+		{Name: "title", Type: &spec.Type{Kind: spec.String}},
+		{Name: "secret", Type: &spec.Type{Kind: spec.String}},
+		{Name: "score", Type: &spec.Type{Kind: spec.Float64}},
+	}
+	leaf.Views = []*spec.View{
+		{Name: "default", Attrs: []spec.ViewAttr{{Name: "ident"}, {Name: "title"}}},
+		{Name: "tiny", Attrs: []spec.ViewAttr{{Name: "ident"}}},
+		{Name: "extended", Attrs: []spec.ViewAttr{{Name: "ident"}, {Name: "title"}, {Name: "secret"}, {Name: "score"}}},
+	}
+	x.s.Types = append(x.s.Types, leaf)
+	ref := func() *spec.Type { return &spec.Type{Kind: spec.Ref, Ref: leaf.Name} }
+	parent := &spec.UserType{Name: x.typeName("Parent"), Kind: "result", Def: &spec.Type{Kind: spec.Object}}
+	parent.Def.Attrs = []*spec.Attr{
+		{Name: "primary", Type: ref()},
+		{Name: "secondary", Type: ref()},
+		{Name: "others", Type: &spec.Type{Kind: spec.Array, Elem: &spec.Attr{Type: ref()}}},
+		{Name: "label", Type: &spec.Type{Kind: spec.String}},
+	}
+	lv := []string{"", "tiny", "extended", "default"}
+	pick := func() string { return lv[x.r.Intn(len(lv))] }
+	mk := func(name string, attrs ...string) *spec.View {
+		v := &spec.View{Name: name}
+		usedViews := map[string]bool{}
+		for _, a := range attrs {
+			va := spec.ViewAttr{Name: a}
+			if a != "label" {
+				// different nested views for the attributes of one parent view
+				for i := 0; i < 6; i++ {
+					va.View = pick()
+					if !usedViews[va.View] {
+						break
+					}
+				}
+				usedViews[va.View] = true
+			}
+			v.Attrs = append(v.Attrs, va)
+		}
+		return v
+	}
+	parent.Views = []*spec.View{
+		mk("default", "primary", "secondary", "label"),
+		mk("tiny", "primary", "others"),
+		mk("extended", "primary", "secondary", "others", "label"),
+	}
+	x.s.Types = append(x.s.Types, parent)
+	x.s.AddFeature("result-type", "multi-view", "nested-view-override", "nested-views-same-type")
 }
 
 func (x *g) genAlias() *spec.UserType {
@@ -720,4 +784,62 @@ func refsSelf(t *spec.Type, self string) bool {
 		}
 	}
 	return false
+}
+
+// genSoloValidationTypes adds a user type whose ONLY validation sits at one chosen position (array
+// element, map key, map element, attribute, alias) and a wrapper type that merely refers to it: the
+// generators decide per type whether any validation code is needed at all, and these are the edge cases
+// of that decision.
+func (x *g) genSoloValidationTypes() {
+	pos := x.r.Intn(5)
+	kind := []string{spec.String, spec.Int, spec.Int32, spec.UInt32, spec.Float64}[x.r.Intn(5)]
+	val := x.genVal(kind, nil)
+	for i := 0; val.Empty() && i < 5; i++ {
+		val = x.genVal(kind, nil)
+	}
+	if val.Empty() {
+		return
+	}
+	solo := &spec.UserType{Name: x.typeName("Solo"), Kind: "type", Def: &spec.Type{Kind: spec.Object}}
+	x.s.Types = append(x.s.Types, solo)
+	carrier := &spec.Attr{Name: "carrier"}
+	switch pos {
+	case 0:
+		carrier.Type = &spec.Type{Kind: spec.Array, Elem: &spec.Attr{Type: &spec.Type{Kind: kind}, Val: val}}
+		x.s.AddFeature("solo-validation-array-elem")
+	case 1:
+		if kind != spec.String && !spec.IsInt(kind) {
+			kind = spec.String
+			val = x.genVal(kind, nil)
+		}
+		carrier.Type = &spec.Type{Kind: spec.Map, Key: &spec.Attr{Type: &spec.Type{Kind: kind}, Val: val}, Elem: &spec.Attr{Type: &spec.Type{Kind: spec.Int}}}
+		x.s.AddFeature("solo-validation-map-key")
+	case 2:
+		carrier.Type = &spec.Type{Kind: spec.Map, Key: &spec.Attr{Type: &spec.Type{Kind: spec.String}}, Elem: &spec.Attr{Type: &spec.Type{Kind: kind}, Val: val}}
+		x.s.AddFeature("solo-validation-map-elem")
+	case 3:
+		carrier.Type = &spec.Type{Kind: kind}
+		carrier.Val = val
+		x.s.AddFeature("solo-validation-attribute")
+	case 4:
+		al := &spec.UserType{Name: x.typeName("SoloAlias"), Kind: "alias", Def: &spec.Type{Kind: kind}, Val: val}
+		x.s.Types = append(x.s.Types, al)
+		carrier.Type = &spec.Type{Kind: spec.Ref, Ref: al.Name}
+		x.s.AddFeature("solo-validation-alias")
+	}
+	solo.Def.Attrs = []*spec.Attr{carrier, {Name: "plain", Type: &spec.Type{Kind: spec.String}}}
+	// wrappers: a type that only refers to the solo type, directly and through a collection
+	wrap := &spec.UserType{Name: x.typeName("Wrap"), Kind: "type", Def: &spec.Type{Kind: spec.Object}}
+	ref := &spec.Type{Kind: spec.Ref, Ref: solo.Name}
+	switch x.r.Intn(3) {
+	case 0:
+		wrap.Def.Attrs = []*spec.Attr{{Name: "inner", Type: ref}}
+	case 1:
+		wrap.Def.Attrs = []*spec.Attr{{Name: "inner", Type: &spec.Type{Kind: spec.Array, Elem: &spec.Attr{Type: ref}}}}
+	case 2:
+		wrap.Def.Attrs = []*spec.Attr{{Name: "inner", Type: &spec.Type{Kind: spec.Map, Key: &spec.Attr{Type: &spec.Type{Kind: spec.String}}, Elem: &spec.Attr{Type: ref}}}}
+	}
+	wrap.Def.Attrs = append(wrap.Def.Attrs, &spec.Attr{Name: "note", Type: &spec.Type{Kind: spec.String}})
+	x.s.Types = append(x.s.Types, wrap)
+	x.solo = append(x.solo, solo.Name, wrap.Name)
 }
